@@ -114,6 +114,30 @@ fn tx_dec_0x0() {
     }
 }
 
+//@ harness: tx_dec_flag_byte class=F tier=quick bound="0 inputs, 0 outputs, version and lock time zero; flag byte over its full range" timeout=900
+//@ clause: Transaction decode accepts the input/output-less transaction only with flag byte 0: flag 1 is rejected (nothing could carry a witness), every other flag byte is rejected as a bad witness flag - so no two byte strings that differ in the flag byte decode to equal transactions
+#[kani::proof]
+#[kani::unwind(3)]
+fn tx_dec_flag_byte() {
+    let flag: u8 = kani::any();
+    let buf: [u8; 11] = [0, 0, 0, 0, flag, 0, 0, 0, 0, 0, 0];
+    match encode::deserialize_partial::<Transaction>(&buf[..]) {
+        Ok((tx, k)) => {
+            assert!(flag == 0 && k == 11);
+            assert!(tx.input.is_empty() && tx.output.is_empty());
+            kani::cover!(true);
+            forget(tx);
+        }
+        Err(e) => {
+            assert!(flag != 0);
+            if flag == 1 { assert!(parse_failed_len(&e) == 44); } else { assert!(parse_failed_len(&e) == 22); }
+            kani::cover!(flag == 2);
+            kani::cover!(flag == 1);
+            forget(e);
+        }
+    }
+}
+
 // ---------------------------------------------------------------------------------------------------------------
 // 1 input, 1 output shapes
 // ---------------------------------------------------------------------------------------------------------------
